@@ -1971,7 +1971,14 @@ func (pe *planEnv) restartDelete(q string, kvs []KV, bs int, batch bool) {
 		if len(x.sel) > 0 {
 			pe.col.Nontrivial(fmt.Sprintf("restart/%s/%s/%d/%v/%d", q, storeWire(kvs), bs, batch, i))
 		}
-		if x.err != nil || x.dump != dumpOf(want) {
+		if x.err != nil {
+			// the DELETE's filter failed on some pair although the row-mode SELECT completed: the scan under a DELETE
+			// evaluates chunks, and the batch evaluator evaluates both operands of & and | (C03 claims batch ⇒ row only);
+			// C11 speaks about what the WHERE selects where it is evaluable — not judged
+			pe.col.Hist("restart-delete:evaluation-error-not-judged")
+			return
+		}
+		if x.dump != dumpOf(want) {
 			pe.find("property", "restart-delete-effect", cs, line, fmt.Sprintf("err=%v store %s", x.err, x.dump),
 				"ok "+dumpOf(want)+" (select * where "+tail+" returns "+showKVs(x.sel)+")", props)
 		}
